@@ -1,5 +1,7 @@
 import SwcVerif.Gen.AlgoDsu
+import SwcVerif.Gen.AlgoTraverse
 import SwcVerif.Model.Dsu
+import SwcVerif.Model.Traverse
 /-! Driver side of the imperative translator: the definitions GENERATED from the current sources are run on the
 same protocol lines as the hand-written models, so that the translator (and the semantics library `Model/Py.lean`)
 is cross-checked against the real functions by the correspondence suites. -/
@@ -27,8 +29,19 @@ def handleDsu (args : List String) : String :=
     | some (g, _) => "".intercalate ((genRun (ops.length + 1) g ops).map showOB)
   | _, _ => "bad-args"
 
+/-- `gtrav ids=.. pids=.. root=r` → call log and return value of the GENERATED `_traverse_dfs` (logging callbacks of
+`Model/Traverse.lean`); `E` = an exception -/
+def handleTrav (args : List String) : String :=
+  match Proto.argInts args "ids", Proto.argInts args "pids", Proto.argInt args "root" with
+  | some ids, some pids, some root =>
+    match traverse_dfs Trav.logEnter Trav.logLeave (2 * ids.length + 3) (ids, pids) root ([] : List Trav.Ev) with
+    | none => "E"
+    | some (log, ret) => s!"{" ".intercalate (log.reverse.map Trav.Ev.show)} ret={ret} stack=0"
+  | _, _, _ => "bad-args"
+
 def handle (op : String) (args : List String) : String :=
   match op with
   | "gdsu" => handleDsu args
+  | "gtrav" => handleTrav args
   | _ => "bad-op"
 end AlgoRun
